@@ -188,13 +188,21 @@ func c05Rules(rng *rand.Rand, dir, file string) []c05Rule {
 		{"ipv4", genIPv4, ".:0"},
 		{"ipv6", genIPv6, ".:af0%"},
 		{"year", func(r *rand.Rand) string { return genDate(r, 1, "", "", "") }, "-0"},
-		{"int", func(r *rand.Rand) string { return digits(r, 1+r.Intn(12)) }, "-+.e "},
+		{"int", func(r *rand.Rand) string {
+			if r.Intn(5) == 0 {
+				return pick(r, "18446744073709551615", "18446744073709551616", "9223372036854775808", digits(r, 20+r.Intn(30))) // beyond every machine integer
+			}
+			return digits(r, 1+r.Intn(12))
+		}, "-+.e "},
 		{"float", func(r *rand.Rand) string { return digits(r, 1+r.Intn(5)) + "." + digits(r, 1+r.Intn(5)) }, ".x,-+e"},
 		{"ints", func(r *rand.Rand) string {
 			n := 1 + r.Intn(4)
 			p := make([]string, n)
 			for i := range p {
 				p[i] = digits(r, 1+r.Intn(3))
+				if r.Intn(12) == 0 {
+					p[i] = pick(r, "18446744073709551616", digits(r, 25))
+				}
 			}
 			return strings.Join(p, ",")
 		}, ",-. "},
@@ -203,6 +211,9 @@ func c05Rules(rng *rand.Rand, dir, file string) []c05Rule {
 			p := make([]string, n)
 			for i := range p {
 				p[i] = digits(r, 1+r.Intn(3))
+				if r.Intn(12) == 0 {
+					p[i] = pick(r, "18446744073709551616", digits(r, 25))
+				}
 			}
 			return strings.Join(p, "-")
 		}, ",-"},
@@ -473,7 +484,7 @@ func runC05(c *core.Ctx) {
 			if rng.Intn(2) == 0 {
 				s := make([]string, n)
 				for j := range s {
-					s[j] = pick(rng, digits(rng, 1+rng.Intn(3)), digits(rng, 2), "a", "1.5", "", " 1", "1 ")
+					s[j] = pick(rng, digits(rng, 1+rng.Intn(3)), digits(rng, 2), "a", "1.5", "", " 1", "1 ", "18446744073709551616", digits(rng, 30))
 				}
 				v = reflect.ValueOf(s)
 			} else {
